@@ -334,7 +334,7 @@ def grad_diff(ans, a, n=1, axis=-1):
             return anp.concatenate((-g[tuple(sl1)], -anp.diff(g, axis=axis), g[tuple(sl2)]), axis=axis)
         shape = list(ans_shape)
         shape[axis] = 1
-        return anp.zeros(shape)
+        return anp.zeros(shape, dtype=anp.result_type(g))
 
     def helper(g, n):
         if n == 0:
@@ -343,7 +343,7 @@ def grad_diff(ans, a, n=1, axis=-1):
 
     if n > anp.shape(a)[axis]:
         # more differences than elements: the (empty) result does not depend on a
-        return lambda g: anp.zeros(anp.shape(a))
+        return lambda g: vspace(a).zeros()
 
     return lambda g: helper(g, n)
 
